@@ -18,6 +18,7 @@ import random
 import numpy as np
 
 import refine_common as rc
+import refine_state as rs
 import vlib
 
 TRUSTED = [
@@ -67,6 +68,11 @@ RULE = ("one evaluation = one refine_droplet call recorded end to end; main stre
         "x_scale / jac / diff_step, the same dict reused from an earlier call), provenance of the candidate (copy, deepcopy, pickle, "
         "from_data, copy(**kw), member of an Emulsion / copied / unpickled Emulsion / track), numeric types (tuple, ndarray, int, float32, "
         "numpy scalar, 0-d array; levels int / numpy scalars / 0-d), the result object refined again; probe streams for the known-finding classes; "
+        "sequences (input dimension 8): sessions of 7 refine_droplet calls + 1 refine_droplets call on ONE grid object, two fields on it "
+        "(same shape, data type, levels, one droplet each; other content), shared candidate objects and one option dict -- same call twice, "
+        "A / B / A alternately, after a call that raises (wrong dimension / constant image with fitted levels / method lm), fresh equal objects "
+        "at the end, results kept alive and one modified in place, candidates as list / tuple / Emulsion / generator for num_processes 1 and 2 "
+        "-- every result compared bit for bit with the same call made FIRST in a fresh interpreter (two reference interpreters, opposite orders); "
         "non-trivial = the optimiser moved the start or an error value was produced; distinct by the full case")
 
 
@@ -215,6 +221,12 @@ def check(ctx: vlib.Ctx) -> int:
     rng = random.Random(ctx.seed)
     ok, fresh = rc.prove_with_fallback(ctx, ["Proofs/C04.vo", "Proofs/RefineOptions.vo"], ["Gen_refine", "Gen_refine_R"])
     state = {"fits": 0, "spec": [], "premise": [], "lits": [], "lit_cases": [], "known": {}, "fails": [], "suspected": {}}
+    # input dimension 8 (state kept between calls): sessions on shared objects, judged against two fresh reference interpreters
+    # that run concurrently with the streams below (harness/refine_state.py); own PRNG
+    rng_s = random.Random(ctx.seed + 4)
+    sessions = [rs.gen_refine_session(rng_s, k) for k in range(ctx.scale(24, 144) if not ctx.broken else ctx.scale(48, 240))]
+    session_tasks = [rs.refine_tasks(s_) for s_ in sessions]
+    ref_procs = rs.start_references(session_tasks)
     n_main = ctx.scale(900, 6000) if not ctx.broken else ctx.scale(1500, 9000)
     for k in range(n_main):
         case = rc.gen_case(rng, k) if k % 6 else rc.gen_fixed_point_case(rng, k)
@@ -234,6 +246,7 @@ def check(ctx: vlib.Ctx) -> int:
             ctx.sample({"case": strip(case), "returned": rec["out"], "error": rec["error"]})
     for tag, case in probe_cases(random.Random(ctx.seed + 1)):
         evaluate(ctx, tag, case, state)
+    state["fails"].extend(rs.judge_sessions(ctx, "refine", sessions, session_tasks, ref_procs))
     ctx.extra["fits"] = state["fits"]
     # (b) correspondence inside Coq
     if ok:
@@ -273,6 +286,12 @@ def replay(path: str) -> int:
     obj = json.load(open(path))
     print(json.dumps(obj, indent=1)[:3000])
     case = obj.get("input")
+    if isinstance(case, dict) and "cA" in case:
+        fails = rs.replay_session(case)
+        for f in fails:
+            print("  property failure:", f["class"], "--", f["what"][:400])
+        print("property oracle on the current tree:", "fails" if fails else "holds")
+        return 1 if fails else 0
     if isinstance(case, dict) and "candidate" in case:
         rec = rc.run_refine(case)
         fails = rc.c04_oracle(case, rec)
